@@ -38,6 +38,9 @@ type ConnPlan struct {
 	HoldAll bool // do not answer until Release() (to build up concurrent in-flight queries)
 	// SlowClose: the client's Close() of this connection takes this long (a TLS close_notify flush, a slow kernel).
 	SlowClose time.Duration
+	// ReadDL: the connection honours read deadlines like a socket (a Read pending past the deadline fails with a
+	// timeout). Off by default: silence is then a plan of its own.
+	ReadDL bool
 }
 
 var ErrDialInjected = errors.New("poolx: injected dial error")
@@ -108,6 +111,7 @@ type FakeConn struct {
 	cond      *sync.Cond
 	buf       bytes.Buffer
 	wdl       time.Time // write deadline (zero: none)
+	rdl       time.Time // read deadline (zero: none); only with plan.ReadDL
 	dg        bool      // datagram framing
 	dq        [][]byte  // queued datagrams
 	eof       bool      // server closed: EOF once buf is drained
@@ -152,6 +156,9 @@ func (c *FakeConn) Read(p []byte) (int, error) {
 	c.mu.Lock()
 	defer c.mu.Unlock()
 	for c.buf.Len() == 0 && len(c.dq) == 0 && !c.eof && c.rerr == nil && !c.closed {
+		if !c.rdl.IsZero() && !time.Now().Before(c.rdl) {
+			return 0, os.ErrDeadlineExceeded
+		}
 		c.cond.Wait()
 	}
 	if len(c.dq) > 0 {
@@ -327,9 +334,25 @@ func (c *FakeConn) SetDeadline(t time.Time) error {
 	c.mu.Lock()
 	c.wdl = t
 	c.mu.Unlock()
+	return c.SetReadDeadline(t)
+}
+func (c *FakeConn) SetReadDeadline(t time.Time) error {
+	if !c.plan.ReadDL {
+		return nil
+	}
+	c.mu.Lock()
+	c.rdl = t
+	c.cond.Broadcast()
+	c.mu.Unlock()
+	if !t.IsZero() {
+		time.AfterFunc(time.Until(t)+time.Millisecond, func() {
+			c.mu.Lock()
+			c.cond.Broadcast()
+			c.mu.Unlock()
+		})
+	}
 	return nil
 }
-func (c *FakeConn) SetReadDeadline(time.Time) error { return nil }
 func (c *FakeConn) SetWriteDeadline(t time.Time) error {
 	c.mu.Lock()
 	c.wdl = t
